@@ -235,3 +235,31 @@ def leaf_boundary_cases(ctx, every=1):
             except Exception:
                 ctx.stats['boundary_unbuildable'] += 1
     return out
+
+
+def presence_grid_cases(ctx, every=1):
+    """Every presence pattern of a three-member SEQUENCE and SET: each member mandatory, OPTIONAL or DEFAULT, and
+    for each pattern every combination of present / absent / equal-to-default values.  What random types give only
+    by luck: a DEFAULT omitted in front of a present OPTIONAL, at the first, middle and last position."""
+    import itertools
+    members = [(('int',), ('i', 7), ('i', 1)), (('octs',), ('o', b'ab'), ('o', b'd')), (('bool',), ('b', True), ('b', False))]
+    out, i = [], 0
+    for kind in ('seq', 'set'):
+        for pres in itertools.product(('req', 'opt', 'def'), repeat=3):
+            fields = []
+            for p, (t, val, dflt) in zip(pres, members):
+                fields.append(((('def', dflt) if p == 'def' else p), t))
+            T = (kind, fields)
+            choices = []
+            for p, (t, val, dflt) in zip(pres, members):
+                choices.append([val] if p == 'req' else [val, None] if p == 'opt' else [val, dflt])
+            for vs in itertools.product(*choices):
+                i += 1
+                if every > 1 and (i + ctx.seed) % every:
+                    continue
+                try:
+                    out.append(Case(T, ('rec', list(vs))))
+                    ctx.stats['presence-grid:' + kind] += 1
+                except Exception:
+                    ctx.stats['presence-grid-unbuildable'] += 1
+    return out
